@@ -154,7 +154,7 @@ class Uniform(Prior):
         name : string or None, optional
             The name of the parameter.
         """
-        if lower_bound >= upper_bound:
+        if not lower_bound < upper_bound:
             raise ParameterSpecificationError(
                     "Lower bound {} is not less than upper bound {}".format(
                     lower_bound, upper_bound))
@@ -225,7 +225,7 @@ class Gaussian(Prior):
         """
         self.mu = mu
         self.sd = sd
-        if sd <= 0:
+        if not sd > 0:
             raise ParameterSpecificationError(
                     "Specified sd of {} is not greater than 0".format(sd))
         self.name = name
@@ -275,7 +275,8 @@ class BoundedGaussian(Gaussian):
             The name of the parameter.
         """
 
-        if mu < lower_bound or mu > upper_bound or lower_bound == upper_bound:
+        if (not lower_bound <= mu or not mu <= upper_bound
+                or lower_bound == upper_bound):
             raise ParameterSpecificationError(
                 "Lower bound {} must be less than mean {}. Upper bound {} must"
                 " be greater than mean.")
